@@ -14,7 +14,7 @@ import facts
 import q
 import tri
 from facts import walk, walk_with_path, peel, call_is, unblock, variant_of, strip_ref, subpat, lit, pat_str, or_pats
-from show import show
+from show import show, show_fn
 from tri import Child, Model, Ret, Unrecognised, SR
 
 
@@ -109,8 +109,8 @@ def check_find(rep, F, cfg):
     ib = unblock(idx_b)
     ilets = [s for s in ib.get("stmts", []) if s["k"] == "Let"] if ib.get("k") == "Block" else []
     names = [s["pat"].get("name") for s in ilets]
-    rep.check(names == ["parts", "k", "i"], "INDEX", "INDEX/locals" + tag, idx_b["sp"], "indexed branch binds parts, k, i", str(names))
-    if names == ["parts", "k", "i"]:
+    rep.check(len(names) == 3, "INDEX", "INDEX/locals" + tag, idx_b["sp"], "indexed branch binds the bracket iterator, the array name and the index", str(names))
+    if len(names) == 3:
         parts, kk, ii = ilets
         pid = parts["pat"]["id"]
         okp = call_is(peel(parts["init"]), "::split") and q.var_id(peel(parts["init"])["args"][0]) == kid and lit(peel(parts["init"])["args"][1]) == ("c", "[")
@@ -118,7 +118,7 @@ def check_find(rep, F, cfg):
         okk = any(call_is(x, "Iterator::next") and q.var_id(x["args"][0]) == pid for x in walk(kk["init"]))
         rep.check(okk, "INDEX", "INDEX/name" + tag, kk["sp"], "the array's name is the text before '['", show(kk["init"]))
         chain = show(ii["init"])
-        oki = "and_then(<T>::and_then(Iterator::next(parts)" in chain
+        oki = any(call_is(x, "Iterator::next") and q.var_id(x["args"][0]) == pid for x in walk(ii["init"])) and str(chain).count("and_then(") == 2
         c0 = F.fn("value::Object::find::{closure#0}")
         c1 = F.fn("value::Object::find::{closure#1}")
         s0 = show(c0.body) if c0 else ""
